@@ -74,39 +74,12 @@ theorem runO_scaleProg {β : Type} [Scalable β] (hk : 0 < k) (orc : Nat → Lay
   obtain ⟨h1, h2⟩ := runO_sim hk orc (SimS.of_eq hk p)
   exact Prod.ext h1 h2
 
-/-- the side condition along a run: in the run of the ORIGINAL container against `orc`, no item leaves
-`determine_container_main_size` having hit the floor -/
-def RunFloorFree (k : Rat) (style : Style Rat) (cs : List (Style Rat)) (inp : LayoutInput Rat)
-    (orc : Nat → LayoutInput Rat → LayoutOutput Rat) : Prop :=
-  LinesFloorFree k (runO orc (prefixProg style cs (flexInput style inp))).1.1
-
-instance (k : Rat) (style : Style Rat) (cs : List (Style Rat)) (inp : LayoutInput Rat)
-    (orc : Nat → LayoutInput Rat → LayoutOutput Rat) : Decidable (RunFloorFree k style cs inp orc) := by
-  unfold RunFloorFree; exact inferInstance
-
-theorem computePreliminary_scale_run (hk : 0 < k) (style : Style Rat) (cs : List (Style Rat)) (inp : LayoutInput Rat)
-    (orc : Nat → LayoutInput Rat → LayoutOutput Rat)
-    (h : LinesFloorFree k (runO orc (prefixProg style cs inp)).1.1) :
-    runO (scaleOrc k orc) (computePreliminary (scale k style) (cs.map (scale k)) (scale k inp)) =
-      scale k (runO orc (computePreliminary style cs inp)) := by
-  rw [computePreliminary_split, computePreliminary_split, runO_bind, runO_bind, prelimAvail_scale hk]
-  obtain ⟨h1, h2⟩ := runO_sim hk orc (prefixProg_sim hk style cs inp)
-  rw [h1 h, h2, afterMain_scale hk, runO_scaleProg hk]
-  show _ = (scale k _, scale k (Trace.append _ _))
-  rw [scale_trace_append]
-  rfl
-
-/-- **computeFlexboxLayout_scale_run**: for EVERY family of children `orc`: if in the run of the container against `orc`
-no item hits the floor of `determine_container_main_size`, the run of the scaled container against the scaled children
-returns the scaled output, having sent the scaled queries and set the scaled layouts -/
+/-- **computeFlexboxLayout_scale_run**: for EVERY family of children `orc`, the run of the scaled container against the
+scaled children returns the scaled output, having sent the scaled queries and set the scaled layouts -/
 theorem computeFlexboxLayout_scale_run (hk : 0 < k) (style : Style Rat) (cs : List (Style Rat)) (inp : LayoutInput Rat)
-    (orc : Nat → LayoutInput Rat → LayoutOutput Rat) (h : RunFloorFree k style cs inp orc) :
+    (orc : Nat → LayoutInput Rat → LayoutOutput Rat) :
     runO (scaleOrc k orc) (computeFlexboxLayout (scale k style) (cs.map (scale k)) (scale k inp)) =
       scale k (runO orc (computeFlexboxLayout style cs inp)) := by
-  rcases computeFlexboxLayout_cases hk style cs inp with ⟨w, h', h1, h2⟩ | ⟨h1, h2⟩
-  · rw [h1, h2, LayoutOutput.fromOuterSize_scale_mk]
-    rfl
-  · rw [h1, h2, flexInput_scale hk]
-    exact computePreliminary_scale_run hk style cs _ orc h
+  rw [computeFlexboxLayout_scale hk, runO_scaleProg hk]
 
 end C04
